@@ -48,44 +48,78 @@ func verifC18MkRecord(sh verifC18RecShape, extraVal int, tsDelta int64) *Record 
 
 var verifC18Topics = []string{"t", "a-topic-name-of-twenty-3"}
 
+// Which assertions a size harness makes. The write-limit and batch-max assertions have their
+// own entry points for the version classes where they are violated by the code under test, so
+// that the remaining assertions of that class are still explored completely.
+const (
+	verifC18CkWriteLimit = 1 << iota // written request <= BrokerMaxWriteBytes
+	verifC18CkBatchMax               // written batch <= configured max batch bytes
+	verifC18CkRest                   // framing, decodability, exact batch length accounting
+	verifC18CkAll = verifC18CkWriteLimit | verifC18CkBatchMax | verifC18CkRest
+)
+
+func verifC18Pick(quick, thorough []int16) int16 {
+	vs := quick
+	if verifThorough() {
+		vs = thorough
+	}
+	return vs[verifChoose(len(vs))]
+}
+
 // Message-set produce versions (v0/v1 = message set v0, v2 = message set v1); the sink knows
 // the version (batching version == encoding version).
 func VerifC18_size_msgset() {
-	v := verifChoose(3)
-	verifC18SizeRun(int32(v), int16(v))
+	v := verifC18Pick([]int16{0, 1, 2}, []int16{0, 1, 2})
+	verifC18SizeRun(int32(v), v, verifC18CkWriteLimit|verifC18CkRest)
+}
+
+func VerifC18_size_msgset_batchMax() {
+	v := verifC18Pick([]int16{0, 1, 2}, []int16{0, 1, 2})
+	verifC18SizeRun(int32(v), v, verifC18CkBatchMax)
 }
 
 // Record-batch, non-flexible produce versions 3..8.
 func VerifC18_size_recordbatch() {
-	vs := []int16{8}
-	if verifThorough() {
-		vs = []int16{3, 4, 5, 6, 7, 8}
-	}
-	v := vs[verifChoose(len(vs))]
-	verifC18SizeRun(int32(v), v)
+	v := verifC18Pick([]int16{8}, []int16{3, 4, 5, 6, 7, 8})
+	verifC18SizeRun(int32(v), v, verifC18CkAll)
 }
 
 // Flexible produce versions 9..13 (13 = topic IDs).
 func VerifC18_size_flexible() {
-	vs := []int16{9, 12, 13}
-	if verifThorough() {
-		vs = []int16{9, 10, 11, 12, 13}
-	}
-	v := vs[verifChoose(len(vs))]
-	verifC18SizeRun(int32(v), v)
+	v := verifC18Pick([]int16{9, 12, 13}, []int16{9, 10, 11, 12, 13})
+	verifC18SizeRun(int32(v), v, verifC18CkBatchMax|verifC18CkRest)
+}
+
+func VerifC18_size_flexible_writeLimit() {
+	v := verifC18Pick([]int16{9, 12, 13}, []int16{9, 10, 11, 12, 13})
+	verifC18SizeRun(int32(v), v, verifC18CkWriteLimit)
 }
 
 // The sink does not know the produce version yet (-1: first request on this broker): batching
 // uses the pessimistic maximum, the request is then written with whatever version is negotiated.
 func VerifC18_size_unknownVersion() {
-	vs := []int16{0, 2, 8, 9, 13}
-	if verifThorough() {
-		vs = []int16{0, 1, 2, 3, 4, 5, 6, 7, 8, 9, 10, 11, 12, 13}
+	v := verifC18Pick([]int16{0, 2, 8, 9, 13}, []int16{0, 1, 2, 3, 4, 5, 6, 7, 8, 9, 10, 11, 12, 13})
+	ck := verifC18CkRest
+	if v < 9 {
+		ck |= verifC18CkWriteLimit
 	}
-	verifC18SizeRun(-1, vs[verifChoose(len(vs))])
+	if v >= 3 {
+		ck |= verifC18CkBatchMax
+	}
+	verifC18SizeRun(-1, v, ck)
 }
 
-func verifC18SizeRun(pv int32, ev int16) {
+func VerifC18_size_unknownVersion_writeLimit() {
+	v := verifC18Pick([]int16{9, 13}, []int16{9, 10, 11, 12, 13})
+	verifC18SizeRun(-1, v, verifC18CkWriteLimit)
+}
+
+func VerifC18_size_unknownVersion_batchMax() {
+	v := verifC18Pick([]int16{0, 2}, []int16{0, 1, 2})
+	verifC18SizeRun(-1, v, verifC18CkBatchMax)
+}
+
+func verifC18SizeRun(pv int32, ev int16, ck int) {
 
 	nTopics := 1 + verifChoose(2)
 	nParts := 1 + verifChoose(2)
@@ -147,20 +181,29 @@ func verifC18SizeRun(pv int32, ev int16) {
 	}
 
 	req, _, _ := e.s.createReq(9, 1)
-	verifAssert(req.wireLength <= limit, "accounted request length stays within BrokerMaxWriteBytes")
+	if ck&verifC18CkRest != 0 {
+		verifAssert(req.wireLength <= limit, "accounted request length stays within BrokerMaxWriteBytes")
+	}
 	if int16(13) > req.produceMax && ev > req.produceMax {
 		verifFail("harness: encode version above produceMax")
 	}
 	req.SetVersion(ev)
 	frame := e.cl.reqFormatter.AppendRequest(nil, req, 77)
 
-	verifAssert(int32(len(frame)) <= limit, "written produce request never exceeds BrokerMaxWriteBytes")
+	if ck&verifC18CkWriteLimit != 0 {
+		verifAssert(int32(len(frame)) <= limit, "written produce request never exceeds BrokerMaxWriteBytes")
+	}
 
 	body, ok := verifC18SplitFrame(frame, ev, 77, id)
-	verifAssert(ok, "request header is well formed and the size prefix equals the bytes that follow")
 	dec := kmsg.ProduceRequest{Version: ev}
 	err := dec.ReadFrom(body)
-	verifAssert(err == nil, "request body decodes as a ProduceRequest of the negotiated version")
+	rest := ck&verifC18CkRest != 0
+	if rest {
+		verifAssert(ok, "request header is well formed and the size prefix equals the bytes that follow")
+		verifAssert(err == nil, "request body decodes as a ProduceRequest of the negotiated version")
+	} else if !ok || err != nil {
+		return
+	}
 
 	nBatches := 0
 	for _, dt := range dec.Topics {
@@ -169,20 +212,31 @@ func verifC18SizeRun(pv int32, ev int16) {
 			topic = req.batches.id2t[dt.TopicID]
 		}
 		parts, exists := req.batches.bs[topic]
-		verifAssert(exists, "decoded topic is one that was added to the request")
-		verifAssert(len(parts) == len(dt.Partitions), "one encoded partition per added batch")
+		if rest {
+			verifAssert(exists, "decoded topic is one that was added to the request")
+			verifAssert(len(parts) == len(dt.Partitions), "one encoded partition per added batch")
+		}
 		for _, dp := range dt.Partitions {
 			b, exists := parts[dp.Partition]
-			verifAssert(exists, "decoded partition is one that was added to the request")
+			if rest {
+				verifAssert(exists, "decoded partition is one that was added to the request")
+			}
+			if !exists {
+				continue
+			}
 			nBatches++
 			n := int32(len(dp.Records))
-			if ev >= 3 {
+			if rest && ev >= 3 {
 				verifAssert(n == b.wireLength-4, "encoded record batch length equals the wireLength accounted while buffering")
 			}
-			verifAssert(n <= batchMax, "written batch never exceeds the configured maximum batch size")
+			if ck&verifC18CkBatchMax != 0 {
+				verifAssert(n <= batchMax, "written batch never exceeds the configured maximum batch size")
+			}
 		}
 	}
-	verifAssert(len(dec.Topics) == len(req.batches.bs), "one encoded topic per added topic")
+	if rest {
+		verifAssert(len(dec.Topics) == len(req.batches.bs), "one encoded topic per added topic")
+	}
 	if nBatches > 0 {
 		verifReached("c18-size-request-with-batches")
 	}
